@@ -15,8 +15,8 @@ TYPES_T = [U16, U32, U64, F32, S16, S32, F64, S64]
 
 
 def scripts(rnd, ntables, types, nmax):
-    for _ in range(ntables):
-        t = make_table(rnd, types)
+    for ti in range(ntables):
+        t = make_table(rnd, types, shape=SHAPES[ti] if ti < len(SHAPES) else None)
         if not t['regs']:
             continue
         sc = [table_line(t)]
